@@ -185,7 +185,42 @@ func genHostileExpr(t *rapid.T, depth int) (interface{}, string) {
 }
 
 func genChainOp(t *rapid.T, healthyPossible bool) chainOp {
-	switch rapid.IntRange(0, 23).Draw(t, "op") {
+	switch rapid.IntRange(0, 24).Draw(t, "op") {
+	case 24:
+		// two enum columns whose value lists hold the same values in another order are not of the same type:
+		// comparing them cell by cell is either refused (Err) or done by value - never silently by internal code
+		rot := rapid.IntRange(1, 2).Draw(t, "enumrot")
+		comp := rapid.SampledFrom([]string{"=", "!="}).Draw(t, "enumcomp")
+		return chainOp{desc: fmt.Sprintf("column-column filter %s on enum columns with rotated value lists (%d)", comp, rot), run: func(qf qframe.QFrame) qframe.QFrame {
+			if qf.Err != nil {
+				return qf.Filter(qframe.Filter{Column: "ea", Comparator: comp, Arg: types.ColumnName("eb")})
+			}
+			vals := []string{"a", "b", "c"}
+			rotated := append(append([]string(nil), vals[rot:]...), vals[:rot]...)
+			ea := []string{"a", "b", "c", "a", "c", "b"}
+			eb := []string{"a", "c", "c", "b", "a", "b"}
+			fr := qframe.New(map[string]interface{}{"ea": ea, "eb": eb, "id": hx.Iota(len(ea))},
+				newqf.Enums(map[string][]string{"ea": vals, "eb": rotated}))
+			if fr.Err != nil {
+				panic("harness: " + fr.Err.Error())
+			}
+			res := fr.Filter(qframe.Filter{Column: "ea", Comparator: comp, Arg: types.ColumnName("eb")})
+			if res.Err != nil {
+				return qf // refused: fine, the chain goes on with its own frame
+			}
+			if comp == "=" || comp == "!=" {
+				var want []int
+				for i := range ea {
+					if (ea[i] == eb[i]) == (comp == "=") {
+						want = append(want, i)
+					}
+				}
+				if got := res.MustIntView("id").Slice(); fmt.Sprint(got) != fmt.Sprint(want) {
+					panic(fmt.Sprintf("VIOLATION: %s between enum columns with value lists %q and %q returned rows %v without an error (equal by value: %v)", comp, vals, rotated, got, want))
+				}
+			}
+			return qf
+		}}
 	case 0, 1, 2:
 		cl, d := genHostileFilterClause(t, 2)
 		return chainOp{desc: d, run: func(qf qframe.QFrame) qframe.QFrame { return qf.Filter(cl) }}
